@@ -178,13 +178,13 @@ def _fmt_assignment(R):
     return {nm: {"value": str(q), "kind": kind, "decimal": str(v)[:40]} for nm, (v, q, kind) in R.used.items()}
 
 
-def replay_failing(family, ctx, failing, candidates, seed):
+def replay_failing(family, ctx, failing, candidates, seed, max_in_domain=60):
     """try to reproduce the undecided / refuted goals on the real code.
     failing: dict label -> verdict info.  Returns violation dict or None."""
     tried = 0
     in_domain = 0
     for src, assignment in candidates:
-        if src == "random" and in_domain >= 60:
+        if src == "random" and in_domain >= max_in_domain:
             break
         tried += 1
         res, R = concrete_eval(family.fn, assignment, "mp")
@@ -267,6 +267,45 @@ def run_family(family, opts):
     return res
 
 
+def _replay_only(family, opts, res, t0):
+    """quick tier, family outside the claim: no solver at all, only the replay lane on the real code -
+    a bug hunt that can report a reproducing counterexample and never counts as discharged"""
+    import itertools as _it
+
+    seed = opts.get("seed", 0)
+    try:
+        probe = ConcRun({})
+        try:
+            family.fn(probe)
+        except Exception:
+            pass
+        inputs = {nm: kind for nm, (v, q, kind) in probe.used.items()}
+        cands = _it.chain([("stratified", a) for a in run.stratified_assignments(inputs, 8, seed)], (("random", a) for a in run.random_assignments(inputs, 120, seed)))
+        old = signal.signal(signal.SIGALRM, _alarm)
+        signal.alarm(int(opts.get("replay_only_s", 25)))
+        try:
+            viol = replay_failing(family, None, {"*": {}}, cands, seed, max_in_domain=24)
+        finally:
+            signal.alarm(0)
+            signal.signal(signal.SIGALRM, old)
+        if viol is not None:
+            res["status"] = "violation"
+            res["violation"] = viol
+        else:
+            res["status"] = "inconclusive"
+            res["reason"] = "outside the claim: replay lane only, nothing reproduced"
+    except FamilyTimeout:
+        res["status"] = "inconclusive"
+        res["reason"] = "outside the claim: replay lane only, time budget used"
+    except Exception as e:
+        res["status"] = "inconclusive"
+        res["reason"] = f"outside the claim: replay lane only ({type(e).__name__})"
+    res["wall_s"] = round(time.time() - t0, 3)
+    res["stats"] = {}
+    res["replay_only"] = True
+    return res
+
+
 def _run_family(family, opts):
     t0 = time.time()
     core.GLOBAL_STATS = core.Stats()
@@ -282,6 +321,8 @@ def _run_family(family, opts):
         "functions": list(family.functions),
         "note": family.note,
     }
+    if getattr(family, "hunt", False) and opts.get("hunt_replay_only"):
+        return _replay_only(family, opts, res, t0)
     ctx = core.new_ctx(timeout_ms=timeout_ms, small_ms=opts.get("small_ms", 1500))
     ctx.stats = core.GLOBAL_STATS
     ctx.no_solver_in_execution = bool(getattr(family, "structural", False))
@@ -361,6 +402,7 @@ def _run_family(family, opts):
                     # undecided on the pinned tree within the budget: not claimed (bounds.json -> outside_goals)
                     if not hunt_goals:
                         res["goals"].append({"label": label, "verdict": "outside-claim", "kind": g.kind})
+                        hunt_failing[label] = {"verdict": "not-attempted"}  # replay lane only (quick tier)
                         continue
                     v, m, info = (ctx.prove(g.form, 3000, upto=upto, kind="hunt") if upto is not None else discharge(ctx, g, 3000))
                     res["goals"].append({"label": label, "verdict": "outside-claim", "hunt": v, "kind": g.kind})
